@@ -148,7 +148,12 @@ def mutate(p, rng):
     elif kind == "defaults-ctxlist":
         files["laze-project.yml"][0]["defaults"] = {"module": {"context": ["default", "c1"]}}
     elif kind == "cli":
-        q["args"][rng.choice(["select", "disable", "define"])] = [rng.choice(["", "=", "+=x", "V", "?", "é=é", "a,b", "V=a+=b"])]
+        if rng.random() < 0.25:
+            # names with blanks / empty names in --builders / --apps (`-b "b0, b1"`): unknown names, reported as such
+            names = [b.get("name") for b in (root.get("builders") or []) if isinstance(b, dict) and isinstance(b.get("name"), str)] or ["b0"]
+            q["args"][rng.choice(["builders", "apps"])] = rng.choice([[names[0], " " + names[-1]], [names[0] + " "], [""], [" "], [names[0], ""]])
+        else:
+            q["args"][rng.choice(["select", "disable", "define"])] = [rng.choice(["", "=", "+=x", "V", "?", "é=é", "a,b", "V=a+=b", "V=a,b=c", " m0", "m0 "])]
     return q, kind
 
 
